@@ -37,10 +37,12 @@ BCAST_TYPES = ["str", "int", "float", "date", "bool", "complex"]
 BCAST_POOLS = {
     "str": ["ab c", "", "Hello, World", "a,b,,c", "  x\t", "123", "é%s{0}"],
     "int": [3, 0, -2, 255, 10 ** 20],
-    "float": [1.5, 0.0, -2.5, 4.0, float("inf"), float("nan")],
+    # 0.0 / -0.0 (and the complex signed zeros) are equal and hash-equal but not interchangeable: a broadcast that
+    # memoises per *value* instead of computing per *element* is visible only with both in one vector
+    "float": [1.5, 0.0, -2.5, 4.0, float("inf"), float("nan"), -0.0],
     "date": [datetime.date(2020, 1, 31), datetime.date(1999, 12, 31), datetime.date(2024, 2, 29)],
     "bool": [True, False],
-    "complex": [1 + 2j, 0j],
+    "complex": [1 + 2j, 0j, complex(-0.0, 0.0), complex(0.0, -0.0)],
 }
 GENERIC_ARGS = [((), {}), (("a",), {}), ((",",), {}), (("a", "X"), {}), ((1,), {}), ((3,), {}), ((8, "*"), {}),
                 ((2, "big"), {}), ((2000, 2, 28), {}), ((2,), {}), (("%Y/%m/%d",), {}), (("2021-03-04",), {}),
@@ -238,6 +240,11 @@ def gen_bcast(rng, tier):
             yield {"fam": "bcast", "b": bi, "x": [xi]}
         for px in G.none_patterns(3):
             yield {"fam": "bcast", "b": bi, "x": [None if p else rng.randrange(np_) for p in px]}
+        # every ordered pair of distinct pool elements side by side (equal-but-distinguishable values included)
+        for i in range(np_):
+            for j in range(np_):
+                if i != j and (tier == "thorough" or BCAST_POOLS[t][i] == BCAST_POOLS[t][j]):
+                    yield {"fam": "bcast", "b": bi, "x": [i, j]}
         for _ in range(1 if tier == "quick" else 4):
             yield {"fam": "bcast", "b": bi, "x": [None if rng.random() < 0.1 else rng.randrange(np_) for _ in range(1200)]}
         if tier == "thorough":
